@@ -349,6 +349,12 @@ pub fn structural_targeted(prop: &str, r: &mut Rng, corpus: &Corpus, tier: Tier)
                 }
                 s
             }
+            4 if r.chance(1, 12) => {
+                // deep nests that are closed again, followed by ordinary code
+                let k = r.pick(&[300usize, 700, 1500]);
+                let open = r.pick(&["%a(", "%a(x,", "%eval(", "%str("]);
+                format!("{}{};\ndata a; x = 1; run;\n", open.repeat(k), ")".repeat(k))
+            }
             4 => deep_call_case(r),
             0 => speculation_case(r),
             1 => {
